@@ -319,6 +319,133 @@ func (r *rw) file(f *ast.File) {
 	}
 }
 
+// ---- crash-point pass (engine E3) ----
+
+var persistFuncs = map[string]bool{
+	"os.Create": true, "os.OpenFile": true, "os.MkdirAll": true, "os.Mkdir": true, "os.RemoveAll": true, "os.Remove": true, "os.Chmod": true,
+	"os.Rename": true, "os.WriteFile": true, "os.CreateTemp": true, "os.Truncate": true,
+	"go.etcd.io/bbolt.Open": true, "(*go.etcd.io/bbolt.DB).Update": true, "(*go.etcd.io/bbolt.DB).Batch": true,
+}
+
+const vcrashPath = vrtPath + "/vcrash"
+
+func (r *rw) calleeName(c *ast.CallExpr) string {
+	var id *ast.Ident
+	switch f := c.Fun.(type) {
+	case *ast.SelectorExpr:
+		id = f.Sel
+	case *ast.Ident:
+		id = f
+	default:
+		return ""
+	}
+	if fn, ok := r.info.Uses[id].(*types.Func); ok {
+		return fn.FullName()
+	}
+	return ""
+}
+
+// crashFile inserts a vcrash.Point before every statement that performs a persistence call and wraps file-backed
+// TOML encoders.
+func (r *rw) crashFile(f *ast.File) {
+	fn := r.fset.Position(f.Pos()).Filename
+	base := filepath.Base(filepath.Dir(fn)) + "/" + filepath.Base(fn)
+	type span struct {
+		lo, hi token.Pos
+		name   string
+	}
+	var funcs []span
+	for _, d := range f.Decls {
+		if fd, ok := d.(*ast.FuncDecl); ok && fd.Body != nil {
+			name := fd.Name.Name
+			if fd.Recv != nil && len(fd.Recv.List) == 1 {
+				t := fd.Recv.List[0].Type
+				if st, ok := t.(*ast.StarExpr); ok {
+					t = st.X
+				}
+				if id, ok := t.(*ast.Ident); ok {
+					name = id.Name + "." + name
+				}
+			}
+			funcs = append(funcs, span{fd.Pos(), fd.End(), name})
+		}
+	}
+	ordinal := map[string]int{}
+	short := func(name string) string {
+		name = strings.ReplaceAll(name, "go.etcd.io/bbolt", "bolt")
+		return strings.NewReplacer("(*", "", ")", "").Replace(name)
+	}
+	labelOf := func(c *ast.CallExpr, name string) string {
+		in := "?"
+		for _, s := range funcs {
+			if c.Pos() >= s.lo && c.Pos() < s.hi {
+				in = s.name
+			}
+		}
+		l := fmt.Sprintf("%s@%s:%s", short(name), base, in)
+		ordinal[l]++
+		if ordinal[l] > 1 {
+			l = fmt.Sprintf("%s/%d", l, ordinal[l])
+		}
+		return l
+	}
+	scan := func(st ast.Stmt) []string {
+		var labels []string
+		ast.Inspect(st, func(n ast.Node) bool {
+			switch x := n.(type) {
+			case *ast.BlockStmt:
+				return ast.Node(x) == ast.Node(st)
+			case *ast.FuncLit:
+				return false
+			case *ast.CallExpr:
+				name := r.calleeName(x)
+				if persistFuncs[name] {
+					labels = append(labels, labelOf(x, name))
+				}
+				if name == "github.com/BurntSushi/toml.NewEncoder" && len(x.Args) == 1 {
+					if tv, ok := r.info.Types[x.Args[0]]; ok && tv.Type.String() == "*os.File" {
+						x.Args[0] = &ast.CallExpr{Fun: &ast.SelectorExpr{X: ast.NewIdent("vcrash"), Sel: ast.NewIdent("W")},
+							Args: []ast.Expr{x.Args[0], &ast.BasicLit{Kind: token.STRING, Value: strconv.Quote(labelOf(x, "toml.Encode"))}}}
+						r.used = true
+					}
+				}
+			}
+			return true
+		})
+		return labels
+	}
+	ast.Inspect(f, func(n ast.Node) bool {
+		var list *[]ast.Stmt
+		switch b := n.(type) {
+		case *ast.BlockStmt:
+			list = &b.List
+		case *ast.CaseClause:
+			list = &b.Body
+		case *ast.CommClause:
+			list = &b.Body
+		}
+		if list == nil {
+			return true
+		}
+		var out []ast.Stmt
+		for _, st := range *list {
+			if _, isBlock := st.(*ast.BlockStmt); !isBlock {
+				for _, l := range scan(st) {
+					out = append(out, &ast.ExprStmt{X: &ast.CallExpr{Fun: &ast.SelectorExpr{X: ast.NewIdent("vcrash"), Sel: ast.NewIdent("Point")},
+						Args: []ast.Expr{&ast.BasicLit{Kind: token.STRING, Value: strconv.Quote(l)}}}})
+					r.used = true
+				}
+			}
+			out = append(out, st)
+		}
+		*list = out
+		return true
+	})
+	if r.used {
+		astutil.AddNamedImport(r.fset, f, "vcrash", vcrashPath)
+	}
+}
+
 type multi []string
 
 func (m *multi) String() string     { return strings.Join(*m, ",") }
@@ -350,7 +477,7 @@ func rewriteConst(files []*ast.File, name, expr string) int {
 func main() {
 	var out, dir, tags, vt, vr string
 	var consts multi
-	var inplace bool
+	var inplace, crash bool
 	flag.StringVar(&out, "out", "", "output directory")
 	flag.StringVar(&dir, "dir", "/repo", "module directory to load from")
 	flag.StringVar(&tags, "tags", "", "build tags")
@@ -358,6 +485,7 @@ func main() {
 	flag.StringVar(&vr, "vrand", "", "comma-separated package paths whose math/rand import becomes vrand")
 	flag.Var(&consts, "const", "pkgpath.Name=expr (repeatable)")
 	flag.BoolVar(&inplace, "inplace", false, "overwrite the loaded files (scratch copies only)")
+	flag.BoolVar(&crash, "crash", false, "insert crash points before persistence operations instead of scheduling points")
 	flag.Parse()
 	for _, p := range strings.Split(vt, ",") {
 		if p != "" {
@@ -403,7 +531,14 @@ func main() {
 		}
 		for i, f := range p.Syntax {
 			r := &rw{fset: p.Fset, info: p.TypesInfo}
-			r.file(f)
+			if crash {
+				r.crashFile(f)
+				if !r.used {
+					continue // untouched file: no overlay entry
+				}
+			} else {
+				r.file(f)
+			}
 			var buf bytes.Buffer
 			if err := printer.Fprint(&buf, p.Fset, f); err != nil {
 				panic(err)
